@@ -298,6 +298,8 @@ def slice_C02(ctx):
         tuples.append((d, fl, pat, inp, "", None))
     for d, fl, pat, inp, _ in bigfollow_stream(ctx, ctx.n(3000, 30000)):
         tuples.append((d, fl, pat, inp, "", "bigfollow"))
+    for d, fl, pat, inp, _ in fixedrep_stream(ctx, ctx.n(2000, 20000)):
+        tuples.append((d, fl, pat, inp, "", "fixedrep"))
     # overlapping alternatives / greedy vs reluctant followed by optional terms
     hand = ["a|ab", "ab|a", "(?:a|ab)(?:c|bcd)", "a*?b?", "a+?b*", "(?:ab|a)(?:b|bc)?", "a{1,2}?a", "(?:a|b)*?b",
             "(?:aa|a)+", "(?:a|aa)+?b", ASTRAL + "|a", "[ab" + ASTRAL + "]+?" + ASTRAL, "a.b", "(?:.a|a.)"]
@@ -636,6 +638,24 @@ def bigfollow_stream(ctx, count, repl=""):
         fl = rng.choice(["", "", "i", "s", "m"])
         for inp in inputs:
             out.append(("xpath", fl, pat, inp, repl))
+    return out
+
+
+def fixedrep_stream(ctx, count, repl=""):
+    """gen.fixedrep shapes (a counted repeat of a multi-character word, bare or captured, with inputs
+    made of copies of the word); own generator state"""
+    rng = random.Random(ctx.seed * 86028121 + 2)
+    out = []
+    while len(out) < count:
+        ast, inputs = gen.fixedrep(rng, rng.choice(["ab", "abc"]))
+        if rng.random() < 0.5:
+            # a captured body keeps the repeat a backtracking one whatever follows
+            q = ast[1][-2] if ast[1][-2][0] == "q" else ast[1][0]
+            parts = [("q", ("grp", x[1]), *x[2:]) if x is q else x for x in ast[1]]
+            ast = ("seq", parts)
+        pat = gen.pp(ast, "xpath", rng)
+        for inp in inputs:
+            out.append(("xpath", rng.choice(["", "", "i"]), pat, inp, repl))
     return out
 
 
@@ -1359,11 +1379,20 @@ def slice_C15(ctx):
     repls = gen.all_strings(alphabet, ctx.n(3, 4))
     for _ in range(ctx.n(300, 3000)):
         repls.append("".join(rng.choice(alphabet + "1$") for _ in range(rng.randint(4, 8))))
+    # what follows '$' or '\\' must be judged as the grammar says: ASCII digits only, '$' and '\\' only -
+    # not "numeric" or "punctuation" in some wider sense (own generator state)
+    rng_u = random.Random(ctx.seed * 49979687 + 15)
+    odd = "\u00b2\u00bd\u0663\u2167\uff11\u0967\U0001d7d1 \u00a0\uff04\uff3c\u0024x"
+    for _ in range(ctx.n(250, 2500)):
+        k = rng_u.randint(1, 4)
+        t = "".join(rng_u.choice(["$" + rng_u.choice(odd), "\\" + rng_u.choice(odd), rng_u.choice("a1$\\"), "$1", rng_u.choice(odd)])
+                    for _ in range(k))
+        repls.append(t)
     cases, meta = [], {}
     cid = 0
     for pat, k in C15_PATTERNS:
         for inp in C15_INPUTS:
-            rs = repls if (not ctx.quick or k in (1, 12)) else rng.sample(repls, 120)
+            rs = repls if (not ctx.quick or k in (1, 12)) else rng.sample(repls, 160)
             for r in rs:
                 c = Case(cid, "xpath", "", pat, inp, r, "ra", tag=f"groups={k}")
                 cases.append(c)
